@@ -3,6 +3,29 @@
 TASK.md that a fresh sub-agent gets (property text only, ideas of earlier rounds to avoid, nothing from /verif)."""
 import json, glob, collections, subprocess, sys, os
 rnd = sys.argv[1]; only = sys.argv[2:]
+VARIANTS = {}
+VARIANTS['4'] = '''Variant `a`: the defect should live in, or only be observable through, a **less travelled part of the public API
+or configuration space** that still falls under the property as stated - e.g. one particular entry point among
+several that promise the same thing (`DataMatrix::encode`, `encode_str`, `encode_gs1`, `DataMatrixBuilder` with
+its options in some order, `data::encode_data`, `data::encodation_plan`, `data::decode_data`, `data::decode_str`,
+`DataMatrix::decode`, `errorcode::encode_error` / `decode_error`, `MatrixMap` with a custom `Bit` type, `Bitmap`
+functions, `SymbolList` constructors / filters / `extend`), a DMRE or rectangular size, a multi-block size, an
+option combination, an unusual but legal symbol list.
+Variant `b`: the defect should be in **shared helper or table code away from the obvious place** (arithmetic
+helpers, size tables, cost helpers, character classification, iterators, conversions), so that it shows only for
+a specific class of values.
+'''
+VARIANTS['5'] = '''Variant `a`: a **size- or magnitude-dependent** defect: it shows only for the largest symbols or longest inputs, for
+counts or positions beyond 255 / 65535 / a table length, at the boundary between the one- and two-byte form of
+some field, for codeword positions where a position-dependent formula (randomisation, interleaving, wrap-around)
+behaves differently, for a particular number of interleaved blocks or regions, or for a DMRE-only geometry.
+Variant `b`: **two cooperating edits** that each look fine alone and that keep the crate self-consistent (so that
+simple self round trips still pass) while the property as stated is broken - e.g. encoder and decoder changed
+consistently but away from the standard, writer and reader of a pattern changed together, a table and its
+consumer, planner and encoder changed together so that they still agree with each other, a cached value and the
+code that invalidates it.
+'''
+
 prev = collections.defaultdict(list)
 for d in sorted(glob.glob('/verif/seeded/*/meta.json')):
     m = json.load(open(d))
@@ -39,17 +62,7 @@ Deliver TWO different source changes to the crate (files under `src/`), as varia
    two cooperating sites that each look fine alone. No `if input == magic` back-doors, no randomness, no time
    dependence.
 
-Variant `a`: the defect should live in, or only be observable through, a **less travelled part of the public API
-or configuration space** that still falls under the property as stated — e.g. one particular entry point among
-several that promise the same thing (`DataMatrix::encode`, `encode_str`, `encode_gs1`, `DataMatrixBuilder` with
-its options in some order, `data::encode_data`, `data::encodation_plan`, `data::decode_data`, `data::decode_str`,
-`DataMatrix::decode`, `errorcode::encode_error` / `decode_error`, `MatrixMap` with a custom `Bit` type, `Bitmap`
-functions, `SymbolList` constructors / filters / `extend`), a DMRE or rectangular size, a multi-block size, an
-option combination, an unusual but legal symbol list.
-Variant `b`: the defect should be in **shared helper or table code away from the obvious place** (arithmetic
-helpers, size tables, cost helpers, character classification, iterators, conversions), so that it shows only for
-a specific class of values.
-
+{variants}
 Both should need something reasonably specific to manifest (they must not be exposed by the existing tests), but
 they need not be astronomically rare.
 
@@ -84,5 +97,5 @@ for l in open('/verif/properties.jsonl'):
     if not os.path.isdir(wt):
         subprocess.check_call(['git', '-C', '/repo', 'worktree', 'add', '-q', '--detach', wt, 'HEAD'])
     pv = "\n".join("  - " + x for x in prev[p['id']]) or "  (none)"
-    open(wt + '/TASK.md', 'w').write(base.format(rnd=rnd, wt=wt, title=p['title'], statement=p['statement'], pid=p['id'], prev=pv))
+    open(wt + '/TASK.md', 'w').write(base.format(rnd=rnd, wt=wt, title=p['title'], statement=p['statement'], pid=p['id'], prev=pv, variants=VARIANTS.get(rnd, VARIANTS['4'])))
     print('task', wt)
